@@ -4,6 +4,7 @@
 import AriadneModel.Driver.ArgWire
 import AriadneModel.Model.ArgFindings
 import AriadneModel.Model.ArgConstruct
+import AriadneModel.Model.ArgHeap
 
 open Lean (Json)
 open Ariadne Ariadne.Wire Ariadne.ArgWire Ariadne.Scalars Ariadne.Coerce Ariadne.ArgValues
@@ -53,6 +54,48 @@ def decSource (j : Json) : ArgConstruct.Source :=
   match optStr j "source" with
   | some "intro" => .intro
   | _ => .sdl
+
+/-! programs over the caller's objects (Model/ArgHeap.lean)
+   CVal  {"ref": a} | {"imm": AV}
+   CObj  {"k":"list","xs":[CVal]} | {"k":"inst","cls":s,"fields":[{"key":s,"ann":NAnn,"v":CVal}]}
+   Step  {"k":"call","opName","opText","defs","args":[CVal]} | {"k":"setField","a","i","v"} | {"k":"setItem","a","i","v"}
+         | {"k":"append","a","v"} -/
+
+def decCVal (j : Json) : Except String ArgHeap.CVal := do
+  match j.getObjVal? "ref" with
+  | .ok a => do pure (.ref (← a.getNat?))
+  | .error _ => do pure (.imm (← decAV (← field j "imm")))
+
+def decCObj (j : Json) : Except String ArgHeap.CObj := do
+  match ← fieldStr j "k" with
+  | "list" => do pure (.list (← (← arrOf j "xs").mapM decCVal))
+  | "inst" => do
+    let fs ← (← arrOf j "fields").mapM fun f => do
+      pure (({ key := ← fieldStr f "key", ann := ← decNAnn (← field f "ann") } : FieldKey), ← decCVal (← field f "v"))
+    pure (.inst (← fieldStr j "cls") fs)
+  | k => throw s!"object kind {k}"
+
+def natField (j : Json) (k : String) : Except String Nat := do (← field j k).getNat?
+
+/-- a value of the caller in the snapshot of the store: a reference, "not set", a tree nobody else
+    holds (not compared), or a leaf by its JSON form -/
+def encCVal : ArgHeap.CVal → Json
+  | .ref a => Json.mkObj [("ref", (a : Nat))]
+  | .imm .unset => Json.mkObj [("unset", true)]
+  | .imm (.list _) => Json.mkObj [("tree", "list")]
+  | .imm (.model _ _) => Json.mkObj [("tree", "model")]
+  | .imm .none => Json.mkObj [("imm", enc .null)]
+  | .imm (.bool b) => Json.mkObj [("imm", enc (.bool b))]
+  | .imm (.int i) => Json.mkObj [("imm", enc (.num i 0))]
+  | .imm (.float m e) => Json.mkObj [("imm", enc (.num m e))]
+  | .imm (.str x) => Json.mkObj [("imm", enc (.str x))]
+  | .imm (.enum m) => Json.mkObj [("imm", enc (.str m))]
+  | .imm (.custom _ j) => Json.mkObj [("imm", enc j)]
+
+def encCObj : ArgHeap.CObj → Json
+  | .list xs => Json.mkObj [("k", "list"), ("xs", .arr (xs.map encCVal).toArray)]
+  | .inst cls fs => Json.mkObj [("k", "inst"), ("cls", cls), ("fields", .arr (fs.map fun (k, v) => Json.mkObj [("key", k.key), ("v", encCVal v)]).toArray)]
+  | .plist _ => Json.mkObj [("k", "client-list")]
 
 def encPyErr : PyCall.PyErr → Json
   | .syntaxError m => Json.mkObj [("error", "SyntaxError"), ("msg", m)]
@@ -148,6 +191,29 @@ def handle (j : Json) : Except String Json := do
     | .error (.generation e) => pure (encGenErr e)
     | .error (.python e) => pure (encPyErr e)
     | .error .serialization => pure (Json.mkObj [("error", "serialization")])
+  | "program" =>
+    let env ← decEnv j
+    let store ← (← arrOf j "store").mapM decCObj
+    let fuel ← natField j "fuel"
+    let steps ← (← arrOf j "steps").mapM fun st => do
+      match ← fieldStr st "k" with
+      | "call" => do
+        pure (ArgHeap.Step.call ⟨← fieldStr st "opName", ← fieldStr st "opText", ← decDefs st, ← (← arrOf st "args").mapM decCVal⟩)
+      | "setField" => do pure (.setField (← natField st "a") (← natField st "i") (← decCVal (← field st "v")))
+      | "setItem" => do pure (.setItem (← natField st "a") (← natField st "i") (← decCVal (← field st "v")))
+      | "append" => do pure (.append (← natField st "a") (← decCVal (← field st "v")))
+      | k => throw s!"step kind {k}"
+    let async := GqlWire.boolD j "async" true
+    let reqs := ArgHeap.runC env tagFns async fuel store steps
+    let after := ArgHeap.storeWith (ArgHeap.convertValueC tagFns fuel) store steps
+    let encReq : Option (Except SendErr Request) → Json
+      | none => Json.null
+      | some (.ok r) => Json.mkObj [("ok", Json.mkObj [("variables", encKvsJ r.variables), ("calls", encCalls r.calls)])]
+      | some (.error (.generation e)) => encGenErr e
+      | some (.error (.python e)) => encPyErr e
+      | some (.error .serialization) => Json.mkObj [("error", "serialization")]
+    pure (Json.mkObj [("requests", .arr (reqs.map encReq).toArray),
+      ("store", .arr ((after.take store.length).map encCObj).toArray)])
   | _ => throw s!"unknown op {op}"
 
 def main : IO Unit := Ariadne.Wire.loop handle
